@@ -309,13 +309,15 @@ structure TElem where
   cond : List Int
   deriving Repr, Inhabited
 
-/-- `translate_elements(elements, add_formula, dynamic)` -/
-def translateElements (els : List TElem) (dynamic : Bool) : Py BForm := do
-  let fs ← els.mapM fun e => do
-    let f ← if dynamic then createDynamicFormula e.term else createFormula e.term
+/-- the formula of one element: the element formula, under its condition if it has one -/
+def elemFormula (e : TElem) (dynamic : Bool) : Py BForm :=
+  (if dynamic then createDynamicFormula e.term else createFormula e.term) >>= fun f =>
     if e.cond.length > 0 then
       pure (BForm.bin "->" (translateConjunction (e.cond.map BForm.numLit)) f)
     else pure f
-  pure (translateConjunction fs)
+
+/-- `translate_elements(elements, add_formula, dynamic)` -/
+def translateElements (els : List TElem) (dynamic : Bool) : Py BForm :=
+  (els.mapM fun e => elemFormula e dynamic) >>= fun fs => pure (translateConjunction fs)
 
 end TelModel
